@@ -1246,9 +1246,9 @@ def run_cases(ctx, notes):
         elif kind == 'fit':
             bad = run_fit_case(c, exp, notes)
             part = 'fit-exact' if exp['wellposed'] else 'fit-illposed'
-            if not bad:                      # the scale laws: same case, invvar * 2^a, y * 2^b
-                nscaled += 1
-                a2, b2 = scale_pair(nscaled)
+            nscaled += 0 if bad else 1
+            if not bad and (not ctx.quick or nscaled % 2 == 0):   # the scale laws: same case, invvar * 2^a, y * 2^b (quick: every 2nd)
+                a2, b2 = scale_pair(nscaled // 2 if ctx.quick else nscaled)
                 bad = run_fit_case(c, exp, notes, a2, b2)
                 ctx.evaluated(1, 'fit-rescaled')
                 if bad:
@@ -1368,8 +1368,8 @@ def run_machine(ctx, notes):
                 meas = masked_measure(sobj, data[0], data[1], data[2], obs['yfit'], mrng)
                 masked.append(masked_record('masked', P['nord'], P['S'], P['pc'], good(obs['before']), obs['st'], obs['finite'],
                                             meas, 'machine', dd, ill=obs['ill'], gs=(obs['gsb'], obs['gsa'])))
-                if obs['st'] == 0:
-                    # the same object state, polynomial data of degree < order
+                if obs['st'] == 0 and (not ctx.quick or nmasked % 2 == 0):
+                    # the same object state, polynomial data of degree < order (quick: every 2nd)
                     s2 = make_sset(P['nord'], knots_for(P['nord'], P['S']), notes)
                     s2.mask = obs['before'].copy()
                     pf = poly_for(P['nord'], mrng, 0.0, float(P['S']), 3.0)
@@ -1627,6 +1627,14 @@ def run(ctx):
         'a warning for fewer good points than the order are accepted as its failure reports',
         'order-1 problems keep data off interior breakpoints (cell attribution of such a point is left open)',
         'requiren (iterfit keyword) is not exercised',
+        'global state: every real call (cholesky_band / cholesky_solve / fit / action / value) must leave numpy\'s floating-point '
+        'error handling as it found it (np.geterr before = after, judged by TLC on every record and fit event); process '
+        'histories interleave refused factorisations with ill-posed (gap, all-zero weights, a non-finite weight, all data at '
+        'one abscissa) and well-posed fits on different objects in every order without restoring anything in between.  The '
+        'list of warning filters is not observed (pydl never edits it; lazy imports inside numpy/scipy append to it).  '
+        'Non-finite y values are outside the statement (it speaks of a non-finite normal matrix, i.e. weights)',
+        'iterfit runs: every fit must be handed the caller\'s own (x, y, weight) triples in non-decreasing x (weights '
+        'clipped at 0) - otherwise the status / optimum judged here would be those of other data',
         'representations of the data: abscissae and evaluation points are also handed over as integer-typed arrays (int64 / '
         'int32 / int16 / uint8) wherever the values are integral - every exact case is replayed on the integer grid of the '
         'grid law (knots and x times L), recorded float fits and iterfit runs include pixel-index data; expected values are '
